@@ -241,9 +241,11 @@ func (tds *Conn) ReadFrom() {
 		if errors.Is(err, io.EOF) {
 			// The connection was closed after the last bytes of the
 			// packet. Record the error so consumers are not left
-			// waiting for packages that will never arrive.
+			// waiting for packages that will never arrive. Further
+			// reads keep reporting the closed connection, as they do
+			// when the EOF arrives on its own.
 			tds.errCh <- fmt.Errorf("error reading packet: %w", err)
-			return
+			continue
 		}
 	}
 }
